@@ -11,7 +11,7 @@
 (*                       empty.  Otherwise returns data"; received data goes to WireLog.writeRx *)
 (*   serviceReceives()  "Service receives until no more" - appends to .rxbs                     *)
 (*   serviceReceiveOnce "Retrieve from server only one reception"                               *)
-(*   catRxbs()          "Return copy and clear .rxbs"                                           *)
+(*   catRxbs()          "Return copy and clear .rxbs";  clearRxbs() "Clear .rxbs"               *)
 (*   connect()          "Attempt nonblocking connect.  Returns True if successful, False if not *)
 (*                       so try again later"; TLS: "Connected when both accepted connection and *)
 (*                       TLS handshake complete"                                                *)
@@ -172,6 +172,10 @@ Cat == /\ ~IsSerial
        /\ res' = Bytes(rxbs) /\ taken' = taken \o rxbs /\ rxbs' = <<>> /\ act' = Act("Cat", <<>>, "", "") /\ Same
        /\ UNCHANGED <<txes, wire, wlog, queued, rlog, delivered, accepted, connected, cutoff>>
 
+\* clearRxbs: "Clear .rxbs" (all transports)
+Clear == /\ res' = None /\ taken' = taken \o rxbs /\ rxbs' = <<>> /\ act' = Act("Clear", <<>>, "", "") /\ Same
+         /\ UNCHANGED <<txes, wire, wlog, queued, rlog, delivered, accepted, connected, cutoff>>
+
 (* ---------------- connecting (clients) ---------------- *)
 \* One serviceConnect() call.  c = answer of the TCP connect ("ok" | "pending" | "na" when already accepted);
 \* h = answer of the TLS handshake ("ok" | "want" | "na" when there is no handshake in this call).
@@ -217,6 +221,7 @@ Next == \/ \E n \in 1..BLen : Len(queued) + n <= BMsgs * BLen /\ Len(txes) < BMs
         \/ RxSide /\ \E s \in (IF Usable THEN RxScripts ELSE {<<>>}) : ServiceRx(s)
         \/ RxSide /\ \E s \in (IF Usable THEN RxOnce ELSE {<<>>}) : ServiceRxOnce(s)
         \/ RxSide /\ Cat
+        \/ RxSide /\ Clear
         \/ \E c \in {"ok", "pending", "na"}, h \in {"ok", "want", "na"} : Connect(c, h)
 Spec == Init /\ [][Next]_vars
 
